@@ -17,6 +17,7 @@ import (
 	"bytes"
 	"errors"
 	"fmt"
+	"sort"
 	"sync"
 	"sync/atomic"
 	"time"
@@ -513,6 +514,31 @@ func (tp *ethTxPool) demoteUnexecutables() {
 			}
 			// Delete the entire queue entry if it became empty.
 			delete(tp.pending, addr)
+		} else {
+			// A gap further up: a committed block may contain a later transaction of the account without
+			// the ones before it (it is then removed from the queue like every transaction of the block).
+			// Only what is consecutive from the account's nonce stays executable; what lies behind the
+			// gap is postponed, or the pool would offer nonces that cannot be executed in that order.
+			next := nonce + 1
+			for accountTxs.Get(next) != nil {
+				next++
+			}
+			if int(next-nonce) < accountTxs.Len() {
+				var later etypes.Transactions
+				for n, tx := range accountTxs.items {
+					if n > next {
+						later = append(later, tx)
+					}
+				}
+				sort.Sort(etypes.TxByNonce(later))
+				for _, tx := range later {
+					log.Warn("Demoting transaction behind a nonce gap", zap.String("hash", tx.Hash().Hex()))
+					accountTxs.Remove(tx.Nonce())
+					if err := tp.addWaiting(tx, addr); err != nil {
+						delete(tp.all, tx.Hash())
+					}
+				}
+			}
 		}
 	}
 }
